@@ -419,6 +419,10 @@ def check(ctx, tier):
     obs += ctx.attempt(shape_label_injective, ctx, "D-k", default=[])
     o_line, n_line = ctx.attempt(statement_line_table, ctx, "D-f", default=([], 0))
     obs += o_line
+    from ..rules import profile as _profile
+    obs += ctx.attempt(lambda c, cl: _profile.tables(c, cl, ('closed',))[0], ctx, "D-l", default=[])
+    from ..rules import scanner as _scanner        # a datatype that keeps a corner or a quote is printed as it is: `p <<http://...>`
+    obs += ctx.attempt(_scanner.literal_type_table, ctx, "D-f", default=[])
     exceptions.apply(obs)
     return {"obs": obs, "floors": [Floor("shapes_namespace call sites", n_pl, 6), Floor("prefix insertion sites", n_g, 3), Floor("emission loops", n_l, 4),
                                    Floor("statement-line rows", n_line, 16)],
